@@ -48,6 +48,8 @@ def run(ctx):
     repo = ctx.repo
     r1 = ctx.rule("C13.R1", "ROLE/SIB: each AD shim differentiates the objective value it returns with respect to the free-parameter tensor it was given, tracking switched on before the stitch; jax: value_and_grad(_final_objective, argnums=0), static_argnums excludes 0-2, both arms use the same objective function", "ROLE", floor=8)
     r2 = ctx.rule("C13.R2", "TAINT: no graph-breaking conversion (tolist/to_numpy/.numpy()/float/int/np.asarray) of parameter-derived data in the evaluation protocol reachable from Model.logpdf; modifiers cannot select the _slow_ reference interpolators", "TAINT", floor=30)
+    r3 = ctx.rule("C13.R3", "BOUNDARY: for every interpolation code, at every breakpoint where the published function is differentiable (left and right pieces have the same first derivative there), the expression the vectorised code SELECTS at the breakpoint itself -- which is what automatic differentiation differentiates -- has that same derivative with respect to alpha (formal differentiation of the interpreted branch; default alpha0)", "BOUNDARY", floor=4)
+    _boundary_gradients(ctx, r3, repo)
     table = shim_table(repo)
     for backend in ("pytorch", "tensorflow"):
         rel = table.get(backend)
@@ -199,3 +201,41 @@ def run(ctx):
             ctx.violated(r2, init, "interpcode whitelist", "the interpolation code is no longer restricted to the vectorised implementations: a `_slow_*` reference interpolator (python floats, tolist) could be selected and break differentiation", node=init.node)
         else:
             ctx.violated(r2, init, "interpcode whitelist", "a reference (_slow_) interpolator is selectable by the modifier", found=str(lists[0]), node=init.node)
+
+
+def _boundary_gradients(ctx, rid, repo):
+    from fractions import Fraction
+    from ..alg import Poly
+    from .c03 import Evaluator, pairs
+    for key, fast, slow, _node in sorted(pairs(repo), key=lambda t: str(t[0])):
+        init = fast.methods["__init__"].node
+        a0 = Poly.const(1)
+        if "alpha0" in A.params_of(init):
+            dv = A.const_value(A.param_defaults(init).get("alpha0")) if A.param_defaults(init).get("alpha0") is not None else 1
+            a0 = to_poly(dv if isinstance(dv, (int, float)) else 1)
+        ev = Evaluator(key, fast, slow, a0)
+        try:
+            ths = ev.thresholds("fast")
+        except Exception as e:  # noqa: BLE001
+            ctx.unrecognised(rid, fast, f"code {key}", f"threshold discovery failed: {e}")
+            continue
+        pts = [t for t, _ in ths]
+        for i, t in enumerate(pts):
+            lo = (pts[i - 1] + t) / 2 if i > 0 else t - 1
+            hi = (t + pts[i + 1]) / 2 if i + 1 < len(pts) else t + 1
+            site = f"{fast.relpath}::{fast.name}.__call__ at alpha = {t}"
+            try:
+                e_lo, _ = ev.eval_fast(lo, [])
+                e_hi, _ = ev.eval_fast(hi, [])
+                e_pt, _ = ev.eval_fast(t, [])
+                at_t = {"alpha": Poly.const(t)}
+                d_lo, d_hi, d_pt = e_lo.diff("alpha").subs(at_t), e_hi.diff("alpha").subs(at_t), e_pt.diff("alpha").subs(at_t)
+                v_ok = e_pt.subs(at_t) == e_lo.subs(at_t) or e_pt.subs(at_t) == e_hi.subs(at_t)
+                if d_lo != d_hi:
+                    ctx.holds(rid, site, "kink of the published function (one-sided derivatives differ): no unique derivative to demand")
+                elif d_pt == d_lo and v_ok:
+                    ctx.holds(rid, site, f"d/dalpha of the selected branch = {str(d_pt)[:80]}")
+                else:
+                    ctx.violated(rid, fast.methods["__call__"], f"code {key} gradient at alpha = {t}", f"the interpolation is differentiable at alpha = {t}, but the expression the vectorised code evaluates exactly AT that point has another derivative with respect to alpha (a term that should carry alpha is replaced by a constant there): automatic differentiation returns a wrong gradient component for a parameter sitting on the breakpoint, although every value is right", expected=str(d_lo)[:200], found=str(d_pt)[:200])
+            except Undecided as e:
+                ctx.unrecognised(rid, fast.methods["__call__"], f"code {key} at alpha = {t}", f"not interpretable: {e}")
